@@ -348,6 +348,105 @@ func runC12(c *mon.Ctx) {
 		}
 	}
 
+	// ---- two layers: a compressed Response carrying an EncryptedAssertion whose plaintext is itself a DEFLATE stream
+	// (the library inflates decrypted bytes the same way). Each layer is bounded by the limit on its own: sizes just
+	// below, at and far above the limit for either layer ----
+	nk := 0
+	for _, L := range []int64{16 << 10, 64 << 10} {
+		for _, outer := range []string{"0.6L", "L-1", "L"} {
+			for _, inner := range []string{"0.6L", "L", "3L"} {
+				nk++
+				cs := c.Begin("nested-compression", nk)
+				if cs == nil {
+					continue
+				}
+				size := func(s string) int {
+					switch s {
+					case "0.6L":
+						return int(L) * 6 / 10
+					case "L-1":
+						return int(L) - 1
+					case "L":
+						return int(L)
+					}
+					return 3 * int(L)
+				}
+				rec := sim.GenuineResponse(w.Env, 1)
+				a := rec.Assertions[0]
+				a.Sig = sim.DefaultSig(signer.Key, signer)
+				a.HasAttrStmt = true
+				a.Attrs = []sim.AttrRec{{Name: sim.S("pad"), Values: []sim.AttrVal{{Value: ""}}}}
+				plain0, err := sim.BuildAssertionStandalone(a, sim.PlainStyle())
+				if err != nil || len(plain0) >= size(inner) {
+					cs.Outcome("not-constructible")
+					continue
+				}
+				a.Attrs[0].Values[0].Value = strings.Repeat("q", size(inner)-len(plain0))
+				plain, err := sim.BuildAssertionStandalone(a, sim.PlainStyle())
+				if err != nil || len(plain) != size(inner) {
+					cs.Outcome("not-constructible")
+					continue
+				}
+				build := func(plaintext []byte) (string, bool) {
+					ea, err := sim.EncryptedAssertionXML(&sim.EncSpec{DataAlg: sim.AES256GCM, KeyAlg: sim.RSAOAEP, To: w.SPEnc}, plaintext, nil, nil)
+					if err != nil {
+						return "", false
+					}
+					shell := sim.GenuineResponse(w.Env, 0)
+					x, err := sim.BuildResponse(shell, sim.PlainStyle())
+					i := strings.LastIndex(x, "</samlp:Response>")
+					if err != nil || i < 0 {
+						return "", false
+					}
+					x = x[:i] + ea + x[i:]
+					if len(x)+7 > size(outer) {
+						return "", false
+					}
+					return x + "<!--" + strings.Repeat("p", size(outer)-len(x)-7) + "-->", true
+				}
+				docC, ok1 := build(sim.Deflate([]byte(plain), 6))
+				docP, ok2 := build([]byte(plain))
+				if !ok1 {
+					cs.Outcome("not-constructible")
+					continue
+				}
+				cs.Desc("L=%d outer=%s(%d) inner plaintext=%s(%d), compressed inside the ciphertext", L, outer, len(docC), inner, len(plain))
+				cs.Input([]byte(trunc(docC, 1024)))
+				mk := func() *saml2.SAMLServiceProvider {
+					sp := mkSP(true, L)
+					sp.SPKeyStore = &RSAKeyStore{C: w.SPEnc}
+					return sp
+				}
+				var gerr, terr error
+				pv, stack := mon.Guard(func() {
+					_, gerr = mk().ValidateEncodedResponse(base64.StdEncoding.EncodeToString(sim.Deflate([]byte(docC), 6)))
+					if ok2 {
+						_, terr = mk().ValidateEncodedResponse(base64.StdEncoding.EncodeToString(sim.Deflate([]byte(docP), 6)))
+					}
+				})
+				if pv != nil {
+					cs.Violation("panic", "panic: %v\n%s", pv, trunc(stack, 800))
+					continue
+				}
+				cs.Nontrivial(cs.Description())
+				within := int64(len(plain)) <= L
+				switch {
+				case !within && gerr == nil:
+					cs.Outcome("inner-over-limit-accepted")
+					cs.Violation("over-limit-accepted:inner-layer", "a decrypted plaintext inflating to %d > limit %d was accepted (outer layer %s)", len(plain), L, outer)
+				case within && gerr != nil && c12Class(gerr) == "over-limit":
+					cs.Outcome("inner-within-limit-rejected")
+					cs.Violation("within-limit-rejected:inner-layer", "both layers inflate to no more than the limit %d (outer %d, inner %d) but the message was rejected as over the limit: %v", L, len(docC), len(plain), gerr)
+				case within && ok2 && (gerr == nil) != (terr == nil):
+					cs.Outcome("twin-differs")
+					cs.Violation("not-transparent", "compressed plaintext: %v; the same plaintext uncompressed inside the ciphertext: %v", gerr, terr)
+				default:
+					cs.Outcome("nested:" + c12Class(gerr))
+				}
+			}
+		}
+	}
+
 	// ---- messages whose inflated length is an exact power-of-two multiple of their compressed length (where buffers
 	// that grow by doubling from a multiple of the input size end exactly at the end of the stream) ----
 	qk := 0
